@@ -153,12 +153,13 @@ def f3_class(d):
     if d.get("label"):
         return False
     net = {}
-    while t["k"] == "scale":
-        m = model.mag_of(t["num"], t["den"])
-        if t["pi"][0]:
-            m = model.mmul(m, {"pi": F(t["pi"][0], t["pi"][1])})
-        net = model.mmul(net, m)
-        t = t["a"]
+    while t["k"] == "scale" or (t["k"] == "pow" and t["n"] == t["d"]):
+        if t["k"] == "scale":
+            m = model.mag_of(t["num"], t["den"])
+            if t["pi"][0]:
+                m = model.mmul(m, {"pi": F(t["pi"][0], t["pi"][1])})
+            net = model.mmul(net, m)
+        t = t["a"]     # pow<1>(X) is X itself, so a scaling of it still derives from the labelled unit
     return bool(net) and t["k"] in ("leaf", "pre")
 
 
